@@ -3,7 +3,9 @@
 #include <libgen.h>
 #include <signal.h>
 #include <stdbool.h>
+#include <fcntl.h>
 #include <stdio.h>
+#include <sys/resource.h>
 #include <sys/stat.h>
 #include <sys/uio.h>
 #include <unistd.h>
@@ -32,6 +34,38 @@ void setup_signal(void)
 	signal(SIGINT, sighandler);
 	signal(SIGTERM, sighandler);
 	signal(SIGPIPE, sighandler);
+}
+
+/*
+ * The descriptors libmcount keeps for itself (the pipe to uftrace, the log
+ * file, the ELF files of the debug info) live in the descriptor table of the
+ * traced program.  open(), dup(), socket(), ... hand out the lowest free
+ * number, so a descriptor of ours in the low range changes the numbers the
+ * program gets (its first open() returned 4 instead of 3).  Move ours to the
+ * top of the table.  Returns the new descriptor, or @fd if it cannot be moved.
+ */
+int fd_move_high(int fd)
+{
+	struct rlimit rl;
+	long limit = 1024;
+	int newfd;
+
+	if (fd < 0)
+		return fd;
+
+	if (getrlimit(RLIMIT_NOFILE, &rl) == 0 && rl.rlim_cur != RLIM_INFINITY)
+		limit = rl.rlim_cur;
+	if (limit > 65536)
+		limit = 65536;
+	if (limit < 64 || fd >= limit - 32)
+		return fd;
+
+	newfd = fcntl(fd, F_DUPFD, (int)limit - 32);
+	if (newfd < 0)
+		return fd;
+
+	close(fd);
+	return newfd;
 }
 
 int read_all(int fd, void *buf, size_t size)
